@@ -404,15 +404,73 @@ TAKE_CASES = [
 ]
 
 
-def _window_try(src, exp):
+# (program, expected rows): DISTINCT / DISTINCT ON (a grouped take) followed by every kind of transform; each one is also run with the prefix up to and
+# including the group named by `let` (C06: the let form puts the DISTINCT into a CTE of its own, so both forms must return these rows)
+DISTINCT_PREFIX = "from t\nselect {g}\ngroup {g} (take 1)\n"
+DISTINCT_ON_PREFIX = "from t\ngroup {g} (sort {-x} | take 1)\n"
+DISTINCT_CASES = [
+    (DISTINCT_PREFIX, "join side:left u (t.g == 'a' && u.id < 3)\nselect {t.g}\n", [("a",), ("a",), ("b",), ("c",)]),
+    (DISTINCT_PREFIX, "join u (u.id < 3)\nselect {g, id}\n", [("a", 1), ("a", 2), ("b", 1), ("b", 2), ("c", 1), ("c", 2)]),
+    (DISTINCT_PREFIX, "derive {n = count this}\nsort g\n", [("a", 3), ("b", 3), ("c", 3)]),
+    (DISTINCT_PREFIX, "aggregate {n = count this}\n", [(3,)]),
+    (DISTINCT_PREFIX, "filter g != 'a'\nsort g\n", [("b",), ("c",)]),
+    (DISTINCT_PREFIX, "sort {-g}\ntake 2\n", [("c",), ("b",)]),
+    (DISTINCT_ON_PREFIX, "join side:left u (u.id == t.b)\nselect {t.g, t.x, u.a}\n", [("a", 30, 20), ("b", 5, 10), ("c", 8, 10)]),
+    (DISTINCT_ON_PREFIX, "aggregate {s = sum x}\n", [(43,)]),
+    (DISTINCT_ON_PREFIX, "derive {n = count this}\nselect {g, n}\nsort g\n", [("a", 3), ("b", 3), ("c", 3)]),
+    (DISTINCT_ON_PREFIX, "filter x < 10\nselect {g, x}\nsort g\n", [("b", 5), ("c", 8)]),
+]
+
+
+def _let_form(prefix, rest):
+    return "let verif_prefix = (%s)\nfrom verif_prefix\n%s" % (prefix.strip().replace("\n", " | "), re.sub(r"\bt\.", "verif_prefix.", rest))
+
+
+def _distinct_one(src, exp):
+    r = _window_try(src, exp, ordered=False)
+    if "sql" not in r:
+        r["failing"] = True     # these programs are accepted on the verified tree: a compile error is a disagreement too
+    return r
+
+
+def _distinct_try():
+    for prefix, rest, exp in DISTINCT_CASES:
+        for src in (prefix + rest, _let_form(prefix, rest)):
+            r = _distinct_one(src, exp)
+            if r["failing"]:
+                return r
+    return None
+
+
+SWEEP_DOC = "every TAKE / WINDOW / DISTINCT case executed on the real prqlc + SQLite; the DISTINCT cases in their inline and in their let form"
+
+
+def sweep():
+    out = []
+    for lab, cases in (("split_order.SO1.Take.Sort", TAKE_CASES), ("split_order.RO1", WINDOW_CASES)):
+        for src, exp in cases:
+            r = _window_try(src, exp)
+            r["obligation"] = lab
+            out.append(r)
+    for prefix, rest, exp in DISTINCT_CASES:
+        for src in (prefix + rest, _let_form(prefix, rest)):
+            r = _distinct_one(src, exp)
+            r["obligation"] = "split_order.SO1.DistinctOn.Join" if prefix == DISTINCT_ON_PREFIX else "split_order.SO1.Distinct.Join"
+            out.append(r)
+    return out
+
+
+def _window_try(src, exp, ordered=True):
     import replaylib
     ok, sql = replaylib.compile_prql(src, "sql.sqlite")
     if not ok:
         return {"input": src, "expected": [list(r) for r in exp], "observed": sql[:300], "failing": sql.startswith("PANIC"), "replay_kind": "rows"}
     ok2, rows = replaylib.sqlite_rows(WINDOW_SETUP, sql)
     rows = [tuple(r) for r in rows] if ok2 else rows
+    if ok2 and not ordered:     # the program ends without a sort: the rows are compared as a multiset
+        rows, exp = sorted(rows, key=repr), sorted(exp, key=repr)
     return {"input": src, "expected": [list(r) for r in exp], "observed": [list(r) for r in rows] if ok2 else "sqlite error: %s" % rows, "failing": (not ok2) or rows != exp,
-            "replay_kind": "rows", "sql": sql}
+            "replay_kind": "rows" if ordered else "rows-unordered", "sql": sql}
 
 
 def replay(failure):
@@ -425,6 +483,10 @@ def replay(failure):
             r = _window_try(src, exp)
             if r["failing"]:
                 return r
+    if lab.startswith(("SO1.Distinct.", "SO1.DistinctOn.", "SO1.Take.")):
+        r = _distinct_try()
+        if r:
+            return r
     if lab.startswith(("GR", "CM", "IC", "RO", "SA", "RA")) or lab.endswith(".Compute"):
         for src, exp in WINDOW_CASES:
             r = _window_try(src, exp)
@@ -437,4 +499,6 @@ def rerun(doc):
     import setops_reach
     if doc.get("replay_kind") == "rows":
         return _window_try(doc["input"], [tuple(r) for r in doc["expected"]])
+    if doc.get("replay_kind") == "rows-unordered":
+        return _distinct_one(doc["input"], [tuple(r) for r in doc["expected"]])
     return setops_reach.rerun(doc)
